@@ -47,6 +47,10 @@ def gen_scenario(seed, idx):
         for n in names:
             srcs["thin/" + n] = r.choice(["corpus:vf/thin61.svg"])
             srcs["bold/" + n] = r.choice(["corpus:vf/bold61.svg"])
+        sc["two_axes"] = r.random() < 0.5  # a second axis: the order of the axes in fvar must not come from a set of tags
+        if sc["two_axes"]:
+            for n in names:
+                srcs["narrow/" + n] = "corpus:vf/thin61.svg"
         sc.update(fmt=fmt, srcs=srcs, fonts=["Font.ttf"])
         sc["opts"] = {"output_file": "Font.ttf", "color_format": fmt}
         return sc
@@ -150,11 +154,21 @@ def build_job(seed, idx, sc, vi, var):
         return out
 
     if sc["kind"] == "vf":
-        toml = gen.toml_config(
-            sc["opts"], None,
-            masters={"thin": {"style_name": "Thin", "srcs": ["thin/*.svg"] if var["glob"] else sorted(p for p in sc["srcs"] if p.startswith("thin/")), "position": {"wght": 300}},
-                     "bold": {"style_name": "Bold", "srcs": ["bold/*.svg"] if var["glob"] else sorted(p for p in sc["srcs"] if p.startswith("bold/")), "position": {"wght": 700}}},
-            axes={"wght": ("Weight", 300)})
+        from collections import OrderedDict
+
+        def msrcs(d):
+            return [d + "/*.svg"] if var["glob"] else sorted(p for p in sc["srcs"] if p.startswith(d + "/"))
+
+        if sc.get("two_axes"):
+            masters = OrderedDict([("thin", {"style_name": "Thin", "srcs": msrcs("thin"), "position": OrderedDict([("wght", 300), ("wdth", 100)])}),
+                                   ("bold", {"style_name": "Bold", "srcs": msrcs("bold"), "position": OrderedDict([("wght", 700), ("wdth", 100)])}),
+                                   ("narrow", {"style_name": "Narrow", "srcs": msrcs("narrow"), "position": OrderedDict([("wght", 300), ("wdth", 75)])})])
+            axes = OrderedDict([("wght", ("Weight", 300)), ("wdth", ("Width", 100))])
+        else:
+            masters = {"thin": {"style_name": "Thin", "srcs": msrcs("thin"), "position": {"wght": 300}},
+                       "bold": {"style_name": "Bold", "srcs": msrcs("bold"), "position": {"wght": 700}}}
+            axes = {"wght": ("Weight", 300)}
+        toml = gen.toml_config(sc["opts"], None, masters=masters, axes=axes)
         ops.append({"op": "write", "path": proj + "/config.toml", "content": "text:" + toml})
         argv += [ref_path("config.toml")]
     elif sc["delivery"] == "flags":
@@ -195,6 +209,10 @@ def build_job(seed, idx, sc, vi, var):
                 for p, c in zip(names, contents[1:] + contents[:1]):
                     pre.append({"op": "write", "path": proj + "/" + p, "content": c})
             pre.append({"op": "invoke", "cwd": cwd, "argv": list(argv) + other, "build_dir": build_dir, "label": "earlier", "sched": var["sched"]})  # the last flag wins
+            if rotate and r.random() < 0.5:
+                # ... on another day: every source is rewritten afterwards, so every step up to the font runs again and
+                # nothing of that day may survive into the build under test
+                pre[-1]["env"] = {"SOURCE_DATE_EPOCH": "1500000000"}
             if rotate:
                 for p, c in sorted(sc["srcs"].items()):
                     pre.append({"op": "write", "path": proj + "/" + p, "content": c})
@@ -206,7 +224,7 @@ def build_job(seed, idx, sc, vi, var):
     if extra_env:
         for op in ops:
             if op["op"] == "invoke":
-                op["env"] = dict(extra_env)
+                op["env"] = dict(extra_env, **(op.get("env") or {}))
     jid = "c08-%d-%d.v%d" % (seed, idx, vi)
     return {"id": jid, "root_id": "c08/%d/%d/v%d" % (seed, idx, vi), "hashseed": var["hashseed"], "clock_seed": H(seed, idx, vi) % (1 << 31),
             "pid_base": 1000 + H(seed, idx, vi, "pid") % 30000,  # process ids and wall-clock time differ between executions, as in real life
@@ -230,6 +248,13 @@ def gen_case(seed, idx, pool, nvar):
             "env": r.choice([None, None, {"NSIM_CPU_COUNT": "1"}, {"NSIM_CPU_COUNT": "64", "NSIM_UMASK": "077"}, {"NSIM_UMASK": "002", "COLUMNS": "40", "NO_COLOR": "1"},
                              {"HOME": "$ROOT/home", "USER": "someone", "LOGNAME": "someone"}, {"LANG": "C", "LC_ALL": "C"}]),
         })
+    if sc.get("two_axes"):
+        # a set of two tags comes out in the other order for about one hash seed in three: spend the whole pool on these cases
+        others = [h for h in pool if h != 0]
+        while len(variants) <= len(others):
+            variants.append(dict(variants[1 + (len(variants) - 1) % nvar]))
+        for vi in range(1, len(variants)):
+            variants[vi]["hashseed"] = others[(vi - 1) % len(others)]
     jobs = [build_job(seed, idx, sc, vi, v) for vi, v in enumerate(variants)]
     return {"id": "c08-%d-%d" % (seed, idx), "jobs": jobs,
             "meta": {"kind": sc["kind"], "fmt": sc["fmt"], "fonts": sc["fonts"], "n_srcs": len(sc["srcs"]), "delivery": sc.get("delivery"),
